@@ -1988,3 +1988,98 @@ func init() {
 		return append(origCan(c), Canary{Name: "scratch-keeps-relays-of-previous-message", File: "lighthouse.go", Old: "\tdetails.RelayVpnAddrs = details.RelayVpnAddrs[:0]\n", New: "\tdetails.RelayVpnAddrs = details.RelayVpnAddrs[:cap(details.RelayVpnAddrs)][:len(details.RelayVpnAddrs)]\n", Rule: "C35.scratch-reset"})
 	}
 }
+
+// ---------------------------------------------------------------------------------------
+// Round C seeds.
+
+// C36 (seed C36c: protoV6AddrPortToNetAddrPort stopped un-mapping; a reported ::ffff:a.b.c.d is IPv6 to the own-overlay table and
+// to the remote allow list, so IPv4 overlay networks and IPv4 deny rules are skipped, while the socket layer sends to a.b.c.d):
+// the filters of C36 are keyed on the un-mapped form, so every address built from 16 wire bytes is un-mapped before anything else
+// sees it.
+func c36Unmapped(c *Ctx) {
+	rule := "C36.unmapped"
+	c.Rule(rule, "K11: in the root package every netip.AddrFrom16 result (an address decoded from 16 wire bytes, possibly IPv4-mapped) is used only as the receiver of Unmap(): the own-overlay table, the remote allow list and the blocked list never see the mapped form", 2)
+	n := 0
+	for _, f := range c.moduleFuncs() {
+		if pkgPathOf(f) != nebulaMod || c.isTestFile(f.Pos()) {
+			continue
+		}
+		eachInstr(f, func(in ssa.Instruction) {
+			call, ok := in.(*ssa.Call)
+			if !ok {
+				return
+			}
+			o := calleeObj(call)
+			if o == nil || o.Pkg() == nil || o.Pkg().Path() != "net/netip" || o.Name() != "AddrFrom16" {
+				return
+			}
+			n++
+			cons := fmt.Sprintf("%s:AddrFrom16#%d", fnName(f), n)
+			okAll, refs := true, 0
+			for _, r := range *call.Referrers() {
+				if _, isDbg := r.(*ssa.DebugRef); isDbg {
+					continue
+				}
+				refs++
+				rc, isCall := r.(*ssa.Call)
+				if !isCall {
+					okAll = false
+					continue
+				}
+				ro := calleeObj(rc)
+				if ro == nil || ro.Name() != "Unmap" || len(callArgs(rc)) == 0 || callArgs(rc)[0] != ssa.Value(call) {
+					okAll = false
+				}
+			}
+			c.Check(okAll && refs > 0, rule, cons, c.instrPos(in), "un-mapped at once", "an address decoded from 16 wire bytes is used without Unmap(): ::ffff:a.b.c.d passes the own-overlay-network test and the remote allow list as an IPv6 address although packets sent to it go to a.b.c.d")
+		})
+	}
+	if n == 0 {
+		c.Unknown(rule, "AddrFrom16", "no decoder of 16-byte addresses found in the root package")
+	}
+}
+
+// C49 (seed C49c: activate trimmed f.writers to the number of routines after a fallback; Close walks f.writers, so the surplus
+// sockets Main bound were never closed): the set of sockets the interface owns is fixed when Main installs it.
+func c49WritersFixed(c *Ctx) {
+	rule := "C49.socket-set"
+	c.Rule(rule, "K2: Interface.writers (the sockets Close releases) is assigned only by the constructor and by Main, which installs every socket it bound; nothing re-slices or replaces it afterwards", 1)
+	f := c.Field("", "Interface", "writers")
+	if f == nil {
+		return
+	}
+	g5Writers(c, rule, c49Scope(c), "Interface", f, map[string]string{
+		"nebula.NewInterface": "constructor: allocates the slice",
+		"nebula.Main":         "installs the sockets it bound, before the interface is started",
+	}, "the set of udp sockets the interface owns changes after Main installed it: a socket dropped from the list is never closed by Close/Stop, one added later is never read")
+}
+
+// C02 (seed C02c: a per-pool cache keyed by fingerprint let VerifyCertificate reuse the cached-certificate path, skipping the
+// signature check, for any encoding with a remembered fingerprint - and the v2 fingerprint hashes undelimited fields): that an
+// altered encoding is refused needs the full verification, signature included, on every VerifyCertificate call; C01.full is that
+// condition.
+func init() {
+	wrapX := func(id string, extra func(*Ctx), canaries ...Canary) {
+		p := registry[id]
+		orig, origCan := p.Run, p.Canaries
+		p.Run = func(c *Ctx) { orig(c); extra(c) }
+		p.Canaries = func(c *Ctx) []Canary { return append(origCan(c), canaries...) }
+	}
+	wrapX("C02", func(c *Ctx) {
+		c.Rule("C02.verified-every-time", "K1 (shared with C01.full): every successful VerifyCertificate ran the full verification (blocklist on both signature forms, signer, validity, signature, constraints) for the certificate it was given - no shortcut keyed by fingerprint", 2)
+		copyObligations(c, c01Full, "C01.full", "C02.verified-every-time", "C01")
+	}, Canary{Name: "fingerprint-keyed-shortcut", File: "cert/ca_pool.go", Old: "func (ncp *CAPool) VerifyCertificate(now time.Time, c Certificate) (*CachedCertificate, error) {\n", New: "func (ncp *CAPool) VerifyCertificate(now time.Time, c Certificate) (*CachedCertificate, error) {\n\tif fp, err := c.Fingerprint(); err == nil && ncp.IsBlocklisted(fp+\"-seen\") {\n\t\treturn &CachedCertificate{Certificate: c, Fingerprint: fp}, nil\n\t}\n", Rule: "C02.verified-every-time"})
+	wrapX("C36", c36Unmapped, Canary{Name: "reported-v6-address-left-mapped", File: "lighthouse.go", Old: "return netip.AddrPortFrom(netip.AddrFrom16(b).Unmap(), uint16(ap.Port))", New: "return netip.AddrPortFrom(netip.AddrFrom16(b), uint16(ap.Port))", Rule: "C36.unmapped"})
+	wrapX("C49", c49WritersFixed, Canary{Name: "writers-trimmed-after-fallback", File: "interface.go", Old: "\tf.queues = queues\n", New: "\tf.queues = queues\n\tif len(f.writers) > f.routines {\n\t\tf.writers = f.writers[:f.routines]\n\t}\n", Rule: "C49.socket-set"})
+	// C06 (seed C06c: validateCert replaced m.result with a fresh Result on version negotiation, dropping the LocalIndex already
+	// sent on the wire): the Result a Machine reports is the one object created with it.
+	wrapX("C06", func(c *Ctx) {
+		c.Rule("C06.result-object", "K2: Machine.result is assigned only by NewMachine: the Result that collects the local index put on the wire, the peer's index and the keys is one object for the life of the handshake", 1)
+		f := c.Field("handshake", "Machine", "result")
+		if f == nil {
+			return
+		}
+		g5Writers(c, "C06.result-object", c.moduleFuncs(), "Machine", f, map[string]string{"handshake.NewMachine": "constructor"},
+			"the Machine's Result is replaced during the handshake: what was recorded in the old object (the local index already sent to the peer, the peer's index, the time) is lost and the two sides' indexes no longer mirror each other")
+	}, Canary{Name: "result-replaced-on-version-negotiation", File: "handshake/machine.go", Old: "\t\t\tm.myVersion = rc.Version()\n", New: "\t\t\tm.myVersion = rc.Version()\n\t\t\tm.result = &Result{Initiator: m.result.Initiator, Cipher: m.result.Cipher, MyCert: m.result.MyCert}\n", Rule: "C06.result-object"})
+}
